@@ -82,7 +82,7 @@ class FcdWorld(au.CutWorld):
             v = m.load(st, v.loc)
         if isinstance(v, ip.Fn):
             body = self.prog.callee_body(m.fninfo[v.full])
-            if body is None:
+            if body is None or body.ext or v.path in self.class_oracles:
                 # an external predicate (char::is_uppercase ...): answered by the class oracle
                 h = self.class_oracles.get(v.path)
                 if h is None:
